@@ -3,6 +3,7 @@
    network/connection.py, tied by correspondence through the real _message_reader_loop. *)
 From Slsk Require Import Base.Tac.
 From Slsk Require Import C01.Types C01.Model C01.Proofs C02.Model C02.Proofs.
+From SlskGen Require Import ConnGen PrimGen SchemaGen.
 Open Scope N_scope.
 
 (* Parsing terminates and is linear: a successful decode of any type consumes at least its minimum
@@ -62,6 +63,44 @@ Example C02_reader_liveness_hypothesis_needed :
    rrunning s = false /\ rclosed s = false) /\
   handlers_never_cancel (fun (_ : list N) (_ : N) => HRaises).
 Proof. split; [exact (proj1 hypothesis_needed)|]. split; [exact (proj2 hypothesis_needed)|]. intros dl m. discriminate. Qed.
+
+(* The framing constants and shape decisions the model is built on are the ones GENERATED from
+   network/connection.py on this run (header sizes, length field, exception clauses). *)
+Theorem C02_conn_constants :
+  (CONN_HDR_OBF, CONN_HDR_PLAIN, CONN_LEN_WIDTH, CONN_LEN_OFFSET) = (8, 4, 4, 0)%nat /\
+  decode_wraps_every_exception = true /\ callback_guarded_by_exception = true.
+Proof. exact conn_constants. Qed.
+
+(* WRITE side composed with the peer's reader.  For every send path (send_message, queue_message,
+   queue_messages), plain or obfuscated (any keys), every list of in-domain messages of a dispatch
+   table: the bytes on the wire are the concatenation of the messages' frames in order (each frame
+   obfuscated on its own), and under ANY segmentation the reader of the peer delivers exactly those
+   messages, once each and in order, stays alive and open, with an empty buffer. *)
+Theorem C02_sent_wire_is_frames : forall p obf kfs, sent_wire p obf kfs = frames_on_wire obf kfs.
+Proof. exact sent_wire_frames. Qed.
+
+Theorem C02_send_receive : forall zc zd, (forall x, zd (zc x) = Some x) ->
+  forall p obf f d (h : list (schema * list value) -> schema * list value -> hout) items chunks,
+  handlers_never_cancel h -> In (f, d) tables -> Forall (item_ok zc f d) items ->
+  concat chunks = sent_wire p obf (map (fun it => (ikey it, iframe it)) items) ->
+  let s := rrun obf (dispatch zd (table all_schemas f d) (gen_fam_width f)) h (map Chunk chunks) in
+  rdelivered s = map (fun it => (ischema it, ivalue it)) items /\ rbuf s = [] /\ rrunning s = true /\ rclosed s = false.
+Proof. exact send_receive. Qed.
+
+Example C02_send_receive_nonvacuous :
+  Forall (item_ok (fun x => x) FPeer DRequest)
+    [mkItem [1; 2; 3; 4] s_PeerUploadFailed_Request [VStr [97]] [9; 0; 0; 0; 46; 0; 0; 0; 1; 0; 0; 0; 97];
+     mkItem [9; 9; 9; 9] s_PeerUserInfoRequest_Request [] [4; 0; 0; 0; 15; 0; 0; 0]] /\
+  sent_wire PQueueMessages true [([1; 2; 3; 4], [9; 0; 0; 0; 46; 0; 0; 0; 1; 0; 0; 0; 97]); ([9; 9; 9; 9], [4; 0; 0; 0; 15; 0; 0; 0])]
+    <> joined_on_wire true [([1; 2; 3; 4], [9; 0; 0; 0; 46; 0; 0; 0; 1; 0; 0; 0; 97]); ([9; 9; 9; 9], [4; 0; 0; 0; 15; 0; 0; 0])].
+Proof.
+  split; [|vm_compute; discriminate].
+  constructor; [|constructor; [|constructor]].
+  - split; [reflexivity|]. split; [repeat constructor; unfold byte_ok; lia|].
+    split; [vm_compute; repeat (first [left; reflexivity | right])|]. split; [vm_compute; tauto|vm_compute; reflexivity].
+  - split; [reflexivity|]. split; [repeat constructor; unfold byte_ok; lia|].
+    split; [vm_compute; repeat (first [left; reflexivity | right])|]. split; [vm_compute; tauto|vm_compute; reflexivity].
+Qed.
 
 (* Accept path: an undecodable / non-init / unknown-ticket first frame (or EOF / read error) closes
    that connection and leaves the registry of the other connections as it was. *)
